@@ -147,6 +147,7 @@ func (b *builder) R() []byte     { return b.add('R', gR(b.r), true) }
 func (b *builder) opt(kw string) { b.add('o', randCase(b.r, kw), false) }
 func (b *builder) optI(v []byte) { b.add('I', v, false) }
 func (b *builder) optS(v []byte) { b.add('S', v, false) }
+
 // forceListN > 0 makes every generated list argument that long (used for the wide-request cases)
 var forceListN int
 
